@@ -113,9 +113,11 @@ func runKeyFormatCase(c Case) (o outcome) {
 	}
 	o.g = g
 	o.term = "(" + in + ", " + out + ")"
-	// Decode is documented to panic on malformed keys; the model states exactly
-	// when.  Only time / allocation are judged here.
-	if !g.panicked {
+	// The only panic left in Decode is the programmer error of passing more
+	// values than the layout has (modelled); any other panic is a violation.
+	if g.panicked && nv <= len(sp.sizes) {
+		o.violation = "keyformat: Decode panicked on a well-typed call: " + g.panicVal
+	} else if !g.panicked {
 		if v := g.violation(); v != "" {
 			o.violation = "keyformat: " + v
 		}
